@@ -44,11 +44,20 @@ def main():
         ck = lib.Check(a.pid, doc.get("tier", a.tier), int(doc.get("seed", a.seed)), level=getattr(mod, "LEVEL", "proof"))
     try:
         mod.run(ck)
-    except Exception:
-        # a crash of the harness itself is not a verdict about the property
+    except (KeyboardInterrupt, MemoryError):
         traceback.print_exc()
         print("[%s] HARNESS ERROR (no verdict)" % a.pid)
         sys.exit(2)
+    except Exception as e:
+        # The harness runs to completion on the unchanged tree.  If it cannot complete, the correspondence between model and
+        # implementation can no longer be established on this tree: the property is no longer shown to hold.  Concrete
+        # violations found before the crash are reported as such; otherwise the violation names the step that failed
+        # (no-failing-input-found), as for a broken proof obligation.
+        tb = traceback.format_exc()
+        print(tb)
+        print("[%s] correspondence could not be completed: %r" % (a.pid, e))
+        if not hasattr(ck, "broken_proof"):
+            ck.broken_proof = "correspondence could not be completed (harness step raised %r)\n%s" % (e, tb[-3000:])
     sys.exit(ck.finish())
 
 
